@@ -1,5 +1,5 @@
 """harnesses - one module per property family; PLAN maps a property to the harnesses that decide it."""
-from . import k01, k04, k11, k12, k13, k14, k16, k17, k18, k20, lfam  # noqa: F401
+from . import k01, k04, k11, k12, k13, k14, k16, k17, k18, k19, k20, lfam  # noqa: F401
 
 PLAN = {
     "C01": ["K01b", "L01"],
@@ -14,7 +14,7 @@ PLAN = {
     "C10": ["L10"],
     "C17": ["K17", "K17b"],
     "C18": ["K18a", "K18b", "L18"],
-    "C19": ["L19"],
+    "C19": ["K19b", "L19"],
     "C11": ["K11a", "K11b"],
     "C12": ["K12a", "K12b", "K12d"],
     "C13": ["K13a", "K13b", "K14b"],
